@@ -351,4 +351,19 @@ def errQualAt (p : String) (e : Option (String Ã— BitVec 64)) : Option (String Ã
 def errQualOpt (p : String) (e : Option (String Ã— Option (BitVec 64))) : Option (String Ã— Option (BitVec 64)) :=
   e.map fun x => (p ++ "." ++ x.1, x.2)
 
+/-! ## stage 10: math/big
+
+`*big.Int` values are `Int` (cmd/extract, loops_big.go states the ownership discipline under which that is sound).
+`z.Mul / Add / Sub (x, y)` are `*`, `+`, `-` on `Int`; `z.Mod(x, m)` is `x % m` (`Int.emod`, the Euclidean modulus that
+`big.Int.Mod` computes) guarded by `decide (m â‰  0)`; the definitions below are the remaining operations. -/
+
+/-- `x.Sign()` of a `*big.Int`: the Go `int` -1, 0 or +1 -/
+def bigSign (x : Int) : BitVec 64 := BitVec.ofInt 64 x.sign
+
+/-- `x.Cmp(y)` of `*big.Int`s: the Go `int` -1 (x < y), 0 (x = y) or +1 (x > y) -/
+def bigCmp (x y : Int) : BitVec 64 := BitVec.ofInt 64 (x - y).sign
+
+/-- `z.Lsh(x, n)`: `x << n` on a `*big.Int` is `x Â· 2â¿` (the sign is kept: big.Int shifts the magnitude) -/
+def bigLsh (x : Int) (n : Nat) : Int := x * 2 ^ n
+
 end Iota.Go
